@@ -5,16 +5,47 @@ namespace RawPanelVerif.Lifecycle
 theorem step_cancel {ae s s'} (h : step ae s .cancel = some s') : s' = { s with cancelled := true } := by
   simp [step] at h; exact h.symm
 
-theorem step_dialOk {ae s s'} (h : step ae s .dialOk = some s') :
-    s.phase = .dialing ∧ s' = { s with phase := .probing, conns := {} :: s.conns, log := .dial :: s.log } := by
+theorem step_offer {ae s s'} (h : step ae s .offer = some s') : s' = { s with offered := s.offered + 1 } := by
+  simp [step] at h; exact h.symm
+
+theorem step_consumerStop {ae s s'} (h : step ae s .consumerStop = some s') : s' = { s with consumer := false } := by
+  simp [step] at h; exact h.symm
+
+theorem step_consumerResume {ae s s'} (h : step ae s .consumerResume = some s') : s' = { s with consumer := true } := by
+  simp [step] at h; exact h.symm
+
+theorem step_tick {ae s s' d} (h : step ae s (.tick d) = some s') : s' = { s with now := s.now + d } := by
+  simp [step] at h; exact h.symm
+
+theorem step_dialOk {ae s s' bin} (h : step ae s (.dialOk bin) = some s') :
+    s.phase = .dialing ∧ s' = { s with phase := .probing, conns := { binary := bin } :: s.conns, log := .dial :: s.log,
+                                       stamps := s.now :: s.stamps } := by
   simp [step] at h; exact ⟨h.1, h.2.symm⟩
 
 theorem step_dialFail {ae s s'} (h : step ae s .dialFail = some s') :
-    s.phase = .dialing ∧ s' = { s with phase := .noConnWait } := by
+    s.phase = .dialing ∧ s' = { s with phase := .noConnWait, wake := s.now + s.nc } := by
   simp [step] at h; exact ⟨h.1, h.2.symm⟩
 
 theorem step_noConnTimer {ae s s'} (h : step ae s .noConnTimer = some s') :
-    s.phase = .noConnWait ∧ s' = { s with phase := .dialing } := by
+    s.phase = .noConnWait ∧ s.wake ≤ s.now ∧ s' = { s with phase := .dialing } := by
+  simp [step] at h; exact ⟨h.1.1, h.1.2, h.2.symm⟩
+
+theorem step_noConnDrain {ae s s'} (h : step ae s .noConnDrain = some s') :
+    s.phase = .noConnWait ∧ 0 < s.offered ∧ s' = { s with phase := .dialing, offered := s.offered - 1 } := by
+  simp [step] at h; exact ⟨h.1.1, h.1.2, h.2.symm⟩
+
+theorem step_onConnect {ae s s'} (h : step ae s .onConnect = some s') :
+    s.phase = .announcing ∧ s' = { s with phase := .connected, log := .connect :: s.log, stamps := s.now :: s.stamps } := by
+  simp [step] at h; exact ⟨h.1, h.2.symm⟩
+
+theorem step_sleepDone {ae s s'} (h : step ae s .sleepDone = some s') :
+    s.phase = .retrySleep ∧ s.wake ≤ s.now ∧
+      s' = { s with phase := .dialing, log := .sleepDone :: s.log, stamps := s.now :: s.stamps } := by
+  simp [step] at h; exact ⟨h.1.1, h.1.2, h.2.symm⟩
+
+theorem step_ret {ae s s'} (h : step ae s .ret = some s') :
+    (s.phase = .exiting ∨ (s.phase = .noConnWait ∧ s.cancelled = true)) ∧
+      s' = { s with phase := .returned, wg := s.wg - 1, log := .returned :: s.log, stamps := s.now :: s.stamps } := by
   simp [step] at h; exact ⟨h.1, h.2.symm⟩
 
 theorem step_peerClose {ae s s'} (h : step ae s .peerClose = some s') :
@@ -29,9 +60,9 @@ theorem step_peerClose {ae s s'} (h : step ae s .peerClose = some s') :
       simp at h; exact ⟨c, rest, hc, by simpa using hp, h.symm⟩
   · simp at h
 
-theorem step_frameComplete {ae s s'} (h : step ae s .frameComplete = some s') :
+theorem step_byteArrive {ae s s' fin} (h : step ae s (.byteArrive fin) = some s') :
     ∃ c rest, s.conns = c :: rest ∧ (s.phase = .announcing ∨ s.phase = .connected) ∧ c.peerClosed = false ∧
-      s' = { s with conns := { c with arrived := c.arrived + 1 } :: rest } := by
+      s' = { s with conns := { c with rx := fin :: c.rx } :: rest } := by
   simp only [step] at h
   split at h
   · rename_i c rest hc
@@ -54,14 +85,22 @@ theorem step_spawnWriter {ae s s'} (h : step ae s .spawnWriter = some s') :
     · simp at h
   · simp at h
 
-theorem step_onConnect {ae s s'} (h : step ae s .onConnect = some s') :
-    s.phase = .announcing ∧ s' = { s with phase := .connected, log := .connect :: s.log } := by
-  simp [step] at h; exact ⟨h.1, h.2.symm⟩
+theorem step_takeFrame {ae s s'} (h : step ae s .takeFrame = some s') :
+    ∃ c rest, s.conns = c :: rest ∧ s.phase = .connected ∧ c.held = false ∧ c.delivered < c.arrived ∧ c.closed = false ∧
+      s' = { s with conns := { c with held := true } :: rest } := by
+  simp only [step] at h
+  split at h
+  · rename_i c rest hc
+    split at h
+    · rename_i hg
+      simp at h; exact ⟨c, rest, hc, hg.1, hg.2.1, hg.2.2.1, hg.2.2.2, h.symm⟩
+    · simp at h
+  · simp at h
 
 theorem step_deliver {ae s s'} (h : step ae s .deliver = some s') :
-    ∃ c rest, s.conns = c :: rest ∧ s.phase = .connected ∧ c.delivered < c.arrived ∧ c.closed = false ∧
-      s' = { s with conns := { c with delivered := c.delivered + 1 } :: rest,
-                    log := .deliver rest.length c.delivered :: s.log } := by
+    ∃ c rest, s.conns = c :: rest ∧ s.phase = .connected ∧ c.held = true ∧ s.consumer = true ∧
+      s' = { s with conns := { c with held := false, delivered := c.delivered + 1 } :: rest,
+                    log := .deliver rest.length c.delivered :: s.log, stamps := s.now :: s.stamps } := by
   simp only [step] at h
   split at h
   · rename_i c rest hc
@@ -72,7 +111,7 @@ theorem step_deliver {ae s s'} (h : step ae s .deliver = some s') :
   · simp at h
 
 theorem step_readErr {ae s s'} (h : step ae s .readErr = some s') :
-    ∃ c rest, s.conns = c :: rest ∧ s.phase = .connected ∧
+    ∃ c rest, s.conns = c :: rest ∧ s.phase = .connected ∧ c.held = false ∧
       (c.closed = true ∨ (c.peerClosed = true ∧ c.delivered = c.arrived)) ∧
       s' = { s with phase := .teardown .quit } := by
   simp only [step] at h
@@ -80,7 +119,20 @@ theorem step_readErr {ae s s'} (h : step ae s .readErr = some s') :
   · rename_i c rest hc
     split at h
     · rename_i hg
-      simp at h; exact ⟨c, rest, hc, hg.1, hg.2, h.symm⟩
+      simp at h; exact ⟨c, rest, hc, hg.1, hg.2.1, hg.2.2, h.symm⟩
+    · simp at h
+  · simp at h
+
+theorem step_readFault {ae s s'} (h : step ae s .readFault = some s') :
+    ∃ c rest, s.conns = c :: rest ∧ s.phase = .connected ∧ c.held = false ∧ c.binary = true ∧ c.closed = false ∧
+      c.delivered = c.arrived ∧ 0 < c.partial ∧
+      s' = { s with phase := .teardown .quit, conns := { c with fault := true } :: rest } := by
+  simp only [step] at h
+  split at h
+  · rename_i c rest hc
+    split at h
+    · rename_i hg
+      simp at h; exact ⟨c, rest, hc, hg.1, hg.2.1, hg.2.2.1, hg.2.2.2.1, hg.2.2.2.2.1, hg.2.2.2.2.2, h.symm⟩
     · simp at h
   · simp at h
 
@@ -110,7 +162,8 @@ theorem step_connClose {ae s s'} (h : step ae s .connClose = some s') :
 
 theorem step_onDisconnect {ae s s' b} (h : step ae s (.onDisconnect b) = some s') :
     ∃ c rest, s.conns = c :: rest ∧ s.phase = .teardown .callback ∧ b = c.exit ∧
-      s' = { s with phase := if b then .exiting else .retrySleep, log := .disconnect b :: s.log } := by
+      s' = { s with phase := if b then .exiting else .retrySleep, log := .disconnect b :: s.log, stamps := s.now :: s.stamps,
+                    wake := s.now + s.rc } := by
   simp only [step] at h
   split at h
   · rename_i c rest hc
@@ -119,15 +172,6 @@ theorem step_onDisconnect {ae s s' b} (h : step ae s (.onDisconnect b) = some s'
       simp at h; exact ⟨c, rest, hc, hg.1, hg.2, h.symm⟩
     · simp at h
   · simp at h
-
-theorem step_sleepDone {ae s s'} (h : step ae s .sleepDone = some s') :
-    s.phase = .retrySleep ∧ s' = { s with phase := .dialing, log := .sleepDone :: s.log } := by
-  simp [step] at h; exact ⟨h.1, h.2.symm⟩
-
-theorem step_ret {ae s s'} (h : step ae s .ret = some s') :
-    (s.phase = .exiting ∨ (s.phase = .noConnWait ∧ s.cancelled = true)) ∧
-      s' = { s with phase := .returned, wg := s.wg - 1, log := .returned :: s.log } := by
-  simp [step] at h; exact ⟨h.1, h.2.symm⟩
 
 theorem step_writerStart {ae s s' i} (h : step ae s (.writerStart i) = some s') :
     ∃ c, s.conns[i]? = some c ∧ c.w = .spawned ∧
@@ -156,6 +200,42 @@ theorem step_writerSeesCancel {ae s s' i} (h : step ae s (.writerSeesCancel i) =
 theorem step_writerSeesQuit {ae s s' i} (h : step ae s (.writerSeesQuit i) = some s') :
     ∃ c, s.conns[i]? = some c ∧ c.w = .running ∧ c.quit = true ∧
       s' = { s with conns := s.conns.set i { c with w := .exited }, wg := s.wg - 1 } := by
+  simp only [step] at h
+  split at h
+  · rename_i c hc
+    split at h
+    · rename_i hg
+      simp at h; exact ⟨c, hc, hg.1, hg.2, h.symm⟩
+    · simp at h
+  · simp at h
+
+theorem step_writerTake {ae s s' i} (h : step ae s (.writerTake i) = some s') :
+    ∃ c, s.conns[i]? = some c ∧ c.w = .running ∧ 0 < s.offered ∧
+      s' = { s with conns := s.conns.set i { c with w := .writing }, offered := s.offered - 1 } := by
+  simp only [step] at h
+  split at h
+  · rename_i c hc
+    split at h
+    · rename_i hg
+      simp at h; exact ⟨c, hc, hg.1, hg.2, h.symm⟩
+    · simp at h
+  · simp at h
+
+theorem step_writeDone {ae s s' i} (h : step ae s (.writeDone i) = some s') :
+    ∃ c, s.conns[i]? = some c ∧ c.w = .writing ∧ c.closed = false ∧
+      s' = { s with conns := s.conns.set i { c with w := .running } } := by
+  simp only [step] at h
+  split at h
+  · rename_i c hc
+    split at h
+    · rename_i hg
+      simp at h; exact ⟨c, hc, hg.1, hg.2, h.symm⟩
+    · simp at h
+  · simp at h
+
+theorem step_writeErr {ae s s' i} (h : step ae s (.writeErr i) = some s') :
+    ∃ c, s.conns[i]? = some c ∧ c.w = .writing ∧ (c.closed = true ∨ c.peerClosed = true) ∧
+      s' = { s with conns := s.conns.set i { c with w := .running } } := by
   simp only [step] at h
   split at h
   · rename_i c hc
